@@ -666,26 +666,26 @@ func checkIndexTiling(c indexTiling) ev.Outcome {
 func init() {
 	ev.Define("loop_paths", ev.Options{
 		Rule:  "valid-by-construction loops (regular, star-shaped about special/random centres, lattice rectangles with a vertex at every grid point, cells; 1/4 inverted; sizes 3..300 (thorough 3000) with mass on 31/32/33 and 63/64/65) × 24 probes (vertices, points on edges ±3 ulps, ±2-ulp neighbours of vertices, cell centres/corners, near and far points). Oracle: parity of exact (integer determinant + independent SoS) crossings of the segment from the construction's known interior point, documented shared-vertex rule; compared with Loop.ContainsPoint (fresh / index built), single-loop Polygon, ContainsPointQuery semi-open (lazy and pre-built index) + ShapeContains + ContainingShapes, open/closed models at vertices, ContainsOrigin. Non-trivial: the loop has > 32 vertices and its index ≥ 2 cells, or a probe is exactly a vertex.",
-		Quick: 20000, Thorough: 600000}, genLoopProbe, checkLoopPaths)
+		Quick: 20000, Thorough: 200000}, genLoopProbe, checkLoopPaths)
 	ev.Define("loop_inverse", ev.Options{
 		Rule:  "same loops and probes; a loop and the fresh reversed loop contain every probe exactly once; Invert() before any query, after the index was built and used, and twice, agree with the fresh loops. Non-trivial: > 32 vertices (index path).",
-		Quick: 15000, Thorough: 400000}, genLoopProbe, checkLoopInverse)
+		Quick: 15000, Thorough: 100000}, genLoopProbe, checkLoopInverse)
 	ev.Define("polygon_parity", ev.Options{
 		Rule:  "polygons of 1..5 (1 in 10: up to 16, reaching cumulativeEdges) concentric star rings (nesting depth known from the construction) × 24 probes; oracle as loop_paths over all rings; Polygon.ContainsPoint, ContainsPointQuery, ShapeContains, and the Invert()ed complement contains each probe exactly when the polygon does not. Non-trivial: ≥ 32 vertices in total or a probe is a vertex.",
-		Quick: 15000, Thorough: 400000}, genPolyProbe, checkPolygon)
+		Quick: 15000, Thorough: 150000}, genPolyProbe, checkPolygon)
 	ev.Define("tiling_cells_full", ev.Options{
 		Rule:  "all 6·4^L cell loops of level L ∈ {0,1,2}; probes = cell vertices, points on cell edges ±2 ulps, ±2-ulp neighbours of vertices, uniform points; each probe is contained in exactly one loop. All cases non-trivial.",
-		Quick: 3000, Thorough: 80000}, genTiling, checkTiling)
+		Quick: 3000, Thorough: 10000}, genTiling, checkTiling)
 	ev.Define("tiling_cells_local", ev.Options{
 		Rule:  "a cell of any level 1..30 (path-biased to face edges and cube corners) and one of its vertices; the 4 (3 at cube corners) same-level cells having that bit-identical vertex; probes = the vertex, its ±2-ulp neighbours, points on the incident edges within 1e-3 of the edge length ±2 ulps; each contained in exactly one incident cell loop.",
-		Quick: 100000, Thorough: 4000000}, genLocalTiling, checkLocalTiling)
+		Quick: 100000, Thorough: 1000000}, genLocalTiling, checkLocalTiling)
 	ev.Define("tiling_lattice", ev.Options{
 		Rule:  "a cube face cut into lattice rectangles (levels 1..5, up to 5×5 tiles, every grid point on a boundary is a vertex so shared edges are bit-identical) plus the complement of the face; grid-cell centres agree with integer truth; lattice points (tile vertices, points on shared edges) are contained in exactly one tile. Non-trivial: more than one tile or a tile with > 32 vertices.",
-		Quick: 20000, Thorough: 600000}, genLatticeTiling, checkLatticeTiling)
+		Quick: 20000, Thorough: 150000}, genLatticeTiling, checkLatticeTiling)
 	ev.Define("tiling_one_index", ev.Options{
 		Rule:  "a whole-sphere tiling (all cells of level 1..3, or a face cut into lattice rectangles plus the complement of that face) added as separate shapes to ONE ShapeIndex, so index cells are fine along shared and cube-face boundaries; probes = cell vertices (incl. on face boundaries and cube corners), points on cell edges ±2 ulps, ±2-ulp neighbours of vertices, cell centres, lattice points; ContainingShapes (semi-open) returns exactly one tile and the closed model at least one. All cases non-trivial.",
-		Quick: 1600, Thorough: 40000}, genIndexTiling, checkIndexTiling)
+		Quick: 1600, Thorough: 15000}, genIndexTiling, checkIndexTiling)
 	ev.Define("index_contains_center", ev.Options{
 		Rule:  "loops with > 8 vertices; through the verif hook every index cell's containsCenter flag is compared with the exact crossing parity at the cell centre. Non-trivial: the index has ≥ 2 cells.",
-		Quick: 15000, Thorough: 400000}, genLoopProbe, checkIndexCenters)
+		Quick: 15000, Thorough: 100000}, genLoopProbe, checkIndexCenters)
 }
